@@ -683,7 +683,9 @@ pub fn c20_pty_case(ctx: &Ctx, env: &RealEnv, dir: &Path, case: u64, seed: u64, 
                 if let Some(frac) = l[b + 2..].split(" done").next() {
                     if let Some((d, t)) = frac.split_once('/') {
                         if let (Ok(d), Ok(t)) = (d.trim().parse::<usize>(), t.trim().parse::<usize>()) {
-                            if t != total || d > t {
+                            // (0/0 is what the display holds before the build phase's first update, and
+                            // during the always-present phase that checks the manifest file itself)
+                            if t != 0 && (t != total || d > t) {
                                 rep.violation("progress-counts", &format!("progress line {:?} but {} commands are wanted", l, total), mk());
                             }
                         }
